@@ -58,6 +58,7 @@ structure GCtx where
   consts : List (Int × String)
   procs : List PInfo
   gnames : List String                 -- the global variables
+  pnames : List String                 -- the procedure names
   gloc : String → Option Nat           -- their word addresses
   spv : Nat                            -- initial stack pointer
   smax : Nat                           -- largest frame
@@ -88,7 +89,7 @@ def GCtx.locOf (G : GCtx) (pi : PInfo) (sp : Nat) (n : String) : Option Nat :=
 def KOf (G : GCtx) (pi : PInfo) (sp dep : Nat) (hi : Nat → Word) : PCtx :=
   { env := G.env, out := G.cg, ctx := G.ctxOf pi, xc := G.xc, ρ := fun _ => none, sp := sp,
     loc := G.locOf pi sp, consts := G.consts, nlocals := pi.p.locals.length, hi := hi,
-    gnames := G.gnames, dep := dep }
+    gnames := G.gnames ++ G.pnames, dep := dep }
 
 theorem KOf_S (G : GCtx) (pi : PInfo) (sp dep : Nat) (hi : Nat → Word) : (KOf G pi sp dep hi).S = G.S pi := rfl
 
@@ -119,6 +120,9 @@ structure GCtx.OK (G : GCtx) : Prop where
     (sym.type = .func ↔ pj.p.isFunc = true)
   genv_vars : ∀ n, n ∈ G.gnames ↔ G.xc.genv.lookup n = some .var
   no_vals : ∀ n w, G.xc.genv.lookup n ≠ some (.val w)
+  pnames_ok : ∀ f p, G.xc.genv.lookup f = some (.proc p) → f ∈ G.pnames
+  pnames_mem : ∀ f ∈ G.pnames, ∃ p, G.xc.genv.lookup f = some (.proc p)
+  low_global : ∀ pi ∈ G.procs, ∀ sp n a, G.lo ≤ sp → G.locOf pi sp n = some a → a < sp → n ∈ G.gnames
   gloc_ok : ∀ pi ∈ G.procs, ∀ sp, ∀ n ∈ G.gnames, G.locOf pi sp n = G.gloc n
   gloc_lo : ∀ n a, G.gloc n = some a → a < G.lo
   formal_loc : ∀ pi ∈ G.procs, ∀ sp k f, pi.p.formals[k]? = some f →
